@@ -193,6 +193,9 @@ func (w *memWriter) drain() string {
 	return sb.String()
 }
 
+// c10RetryBudget bounds the re-runs spent on telling an unstable output (map order, C08) from a leak.
+var c10RetryBudget = 4000
+
 var c10Stdout *os.File
 
 func c10StdoutOffset() int64 {
@@ -429,7 +432,10 @@ func runC10(c *Ctx) {
 					reports++
 					nt = true
 					same = false
-					for attempt := 0; attempt < 6 && !same; attempt++ {
+					for attempt := 0; attempt < 60 && !same && (attempt == 0 || c10RetryBudget > 0); attempt++ {
+						if attempt > 0 {
+							c10RetryBudget--
+						}
 						cl := "compact_labels=false"
 						for _, pr := range driver.VerifConfigDump(before) {
 							if pr[0] == "compact_labels" && pr[1] == "true" {
@@ -602,7 +608,8 @@ func runC10Web(c *Ctx, fields []driver.VerifField) {
 			fc, fh := fresh(rq)
 			same := fc == codes[i] && fh == hashes[i]
 			firstFresh := lastFresh
-			for attempt := 0; attempt < 6 && !same; attempt++ { // an unstable output (C08) matches eventually, a leak never
+			for attempt := 0; attempt < 200 && !same && c10RetryBudget > 0; attempt++ { // an unstable output (C08) matches eventually, a leak never
+				c10RetryBudget--
 				fc2, fh2 := fresh(rq)
 				if fc2 == codes[i] && fh2 == hashes[i] {
 					flaky++
